@@ -12,7 +12,7 @@ PROPS["C19"] = {
     "exhaustive": {"quick": False, "thorough": True},
     "assumptions": ["std BTreeMap is a correct finite map", "std DefaultHasher::new() is deterministic"],
     "quick": [
-        {"variant": "default", "cases": 3000, "params": {"maxlen": 4, "mode": "all"}, "timeout": 300},
+        {"variant": "default", "cases": 9000, "params": {"maxlen": 4, "mode": "all"}, "timeout": 300},
     ],
     "thorough": [
         {"variant": "default", "cases": 400000, "params": {"maxlen": 5, "mode": "all", "assoc_full": 1}, "timeout": 3000},
@@ -31,10 +31,10 @@ PROPS["C01"] = {
             "root operator is unequal in the oracle (there was something to get wrong).",
     "assumptions": ["the ground closure on a pool of size >= 3m coincides with the true congruence on the universe (DESIGN §3.4); disagreements are re-decided at |P|+2 before being reported"],
     "quick": [
-        {"variant": "default", "cases": 6000, "params": {"profile": "mix"}, "timeout": 600},
-        {"variant": "default", "cases": 1500, "params": {"profile": "m4"}, "timeout": 600},
-        {"variant": "default", "cases": 1500, "params": {"profile": "symred"}, "timeout": 600},
-        {"variant": "explanations", "cases": 1500, "params": {"profile": "mix"}, "timeout": 600},
+        {"variant": "default", "cases": 12000, "params": {"profile": "mix"}, "timeout": 600},
+        {"variant": "default", "cases": 3000, "params": {"profile": "m4"}, "timeout": 600},
+        {"variant": "default", "cases": 3000, "params": {"profile": "symred"}, "timeout": 600},
+        {"variant": "explanations", "cases": 3000, "params": {"profile": "mix"}, "timeout": 600},
     ],
     "thorough": [
         {"variant": "default", "cases": 400000, "params": {"profile": "mix"}, "timeout": 3000},
@@ -50,10 +50,10 @@ PROPS["C02"] = {
             "(a consequence had to be found).",
     "assumptions": ["equalities derived by the ground closure are implied at every pool size, so an 'oracle equal, e-graph unequal' verdict cannot be a false alarm"],
     "quick": [
-        {"variant": "default", "cases": 6000, "params": {"profile": "mix"}, "timeout": 600},
-        {"variant": "default", "cases": 1500, "params": {"profile": "m4"}, "timeout": 600},
-        {"variant": "default", "cases": 1500, "params": {"profile": "symred"}, "timeout": 600},
-        {"variant": "explanations", "cases": 1500, "params": {"profile": "mix"}, "timeout": 600},
+        {"variant": "default", "cases": 12000, "params": {"profile": "mix"}, "timeout": 600},
+        {"variant": "default", "cases": 3000, "params": {"profile": "m4"}, "timeout": 600},
+        {"variant": "default", "cases": 3000, "params": {"profile": "symred"}, "timeout": 600},
+        {"variant": "explanations", "cases": 3000, "params": {"profile": "mix"}, "timeout": 600},
     ],
     "thorough": [
         {"variant": "default", "cases": 400000, "params": {"profile": "mix"}, "timeout": 3000},
@@ -72,10 +72,10 @@ PROPS["C08"] = {
             "find idempotent, alive ids listed, work lists drained (hook). Non-trivial = distinct history (hash of its log) with >=1 redundancy or symmetry event.",
     "assumptions": ["the structural invariants are those listed in the property statement; EGraph::check is the crate's own checker"],
     "quick": [
-        {"variant": "default", "cases": 3000, "params": {"mode": "mixed"}, "timeout": 600},
-        {"variant": "default", "cases": 8000, "params": {"mode": "hist"}, "timeout": 600},
-        {"variant": "checks", "cases": 3000, "params": {"mode": "mixed"}, "timeout": 600},
-        {"variant": "checks", "cases": 8000, "params": {"mode": "hist"}, "timeout": 600},
+        {"variant": "default", "cases": 6000, "params": {"mode": "mixed"}, "timeout": 600},
+        {"variant": "default", "cases": 16000, "params": {"mode": "hist"}, "timeout": 600},
+        {"variant": "checks", "cases": 6000, "params": {"mode": "mixed"}, "timeout": 600},
+        {"variant": "checks", "cases": 16000, "params": {"mode": "hist"}, "timeout": 600},
     ],
     "thorough": [
         {"variant": "default", "cases": 200000, "params": {"mode": "mixed", "len_hi": 40}, "timeout": 3000},
@@ -96,8 +96,8 @@ PROPS["C10"] = {
     "exhaustive": {"quick": True, "thorough": True},
     "assumptions": ["brute-force closure by BFS over explicit permutation tables is correct", "exhaustive: true refers to the generator sets on <= 4 slots; 5/6 slots and the redundancy variant are sampled"],
     "quick": [
-        {"variant": "default", "cases": 300, "params": {"exh_n": 4}, "timeout": 600},
-        {"variant": "default", "cases": 1500, "params": {"profile": "symred"}, "worker_prop": "C10red", "timeout": 600},
+        {"variant": "default", "cases": 900, "params": {"exh_n": 4}, "timeout": 600},
+        {"variant": "default", "cases": 4500, "params": {"profile": "symred"}, "worker_prop": "C10red", "timeout": 600},
     ],
     "thorough": [
         {"variant": "default", "cases": 30000, "params": {"exh_n": 4}, "timeout": 3000},
@@ -116,8 +116,8 @@ PROPS["C09"] = {
             "Non-trivial = distinct history with >=1 non-literal present probe.",
     "assumptions": ["class allocation is observed through progress().number_of_classes"],
     "quick": [
-        {"variant": "default", "cases": 4000, "timeout": 600},
-        {"variant": "explanations", "cases": 800, "timeout": 600},
+        {"variant": "default", "cases": 16000, "timeout": 600},
+        {"variant": "explanations", "cases": 3200, "timeout": 600},
     ],
     "thorough": [
         {"variant": "default", "cases": 400000, "timeout": 3000},
@@ -135,7 +135,7 @@ PROPS["C16"] = {
             "apply_slotmap(bij) restores the node. Non-trivial = distinct canonical shapes observed (each shape is one equivalence class of nodes).",
     "exhaustive": {"quick": False, "thorough": False},
     "assumptions": ["the independent scoping model in harness/src/props/c16.rs (innermost binder wins, a binder scopes over its own field only)"],
-    "quick": [{"variant": "default", "cases": 12000, "timeout": 600}],
+    "quick": [{"variant": "default", "cases": 48000, "timeout": 600}],
     "thorough": [{"variant": "default", "cases": 1500000, "timeout": 3000}, {"variant": "checks", "cases": 200000, "timeout": 3000}],
     "floors": {"any": {"nodes_checked": 100000, "nodes_with_shadowing": 5000, "nodes_with_repeated_slot": 20000, "nodes_exhaustive": 5000, "distinct_shapes": 5000}},
 }
@@ -146,7 +146,7 @@ PROPS["C17"] = {
             "print/parse must round-trip, internally invented (non-numeric) slots must be new to the user. The hygiene lane replays C11-style histories with user slots named f0..f9 "
             "and $0..$9 against a neutral naming. Non-trivial = distinct interleaving (hash of its log) containing all event kinds.",
     "assumptions": ["numeric names inside stored e-nodes are canonical shape names of bound slots; their harmlessness is judged by the behavioural hygiene lane"],
-    "quick": [{"variant": "default", "cases": 2500, "params": {"len": 200}, "timeout": 600}],
+    "quick": [{"variant": "default", "cases": 10000, "params": {"len": 200}, "timeout": 600}],
     "thorough": [{"variant": "default", "cases": 300000, "params": {"len": 300}, "timeout": 3000}],
     "floors": {"any": {"events": 100000, "fresh_calls": 10000, "names_recorded": 50000}},
 }
@@ -156,7 +156,7 @@ PROPS["C18"] = {
             "bracket flips, splicing and random characters are given to RecExpr/Pattern/MultiPattern::parse: no panic, Ok values have as many children as their operator takes and "
             "are stable under their own print/parse. Payloads obey the statement's side condition. Non-trivial = distinct corpus (hash).",
     "assumptions": ["payloads containing '==' or ',' are excluded from multi-patterns (they do not print unambiguously there)"],
-    "quick": [{"variant": "default", "cases": 6000, "timeout": 600}],
+    "quick": [{"variant": "default", "cases": 30000, "timeout": 600}],
     "thorough": [{"variant": "default", "cases": 800000, "timeout": 3000}, {"variant": "checks", "cases": 100000, "timeout": 3000}],
     "floors": {"any": {"term_roundtrips": 10000, "pattern_roundtrips": 10000, "subst_patterns": 1000, "multipattern_roundtrips": 5000, "arbitrary_texts": 100000, "arbitrary_accepted": 5000}},
 }
@@ -169,7 +169,7 @@ PROPS["C11"] = {
             "symmetry count / slot names (returned invocations are the originals renamed), AstSize cost of the term extracted per handle, node count. A panic that occurs only under the "
             "renaming is a violation. Non-trivial = distinct (naming, history) pair.",
     "assumptions": ["observable answers are compared; internal ids and fresh-name numbering are not"],
-    "quick": [{"variant": "default", "cases": 2500, "timeout": 600}],
+    "quick": [{"variant": "default", "cases": 15000, "timeout": 600}],
     "thorough": [{"variant": "default", "cases": 300000, "timeout": 3000}, {"variant": "explanations", "cases": 20000, "timeout": 3000}],
     "floors": {"any": {"histories_compared": 1500, "histories_with_rewriting": 300, "naming_numeric_desc": 50, "naming_fresh_like": 50, "naming_textual_rev": 50}},
 }
@@ -178,7 +178,7 @@ PROPS["C12"] = {
             "union, plus the fully reversed order and the all-flipped orientation. Compared: equality answers over all inserted terms and relative namings, live classes, per-term slot count, "
             "symmetry count and slot names. Non-trivial = distinct history with >= 2 unions.",
     "assumptions": ["a union that refers to a term not inserted yet inserts it first (so every order is executable)"],
-    "quick": [{"variant": "default", "cases": 2500, "params": {"orders": 4}, "timeout": 600}],
+    "quick": [{"variant": "default", "cases": 15000, "params": {"orders": 4}, "timeout": 600}],
     "thorough": [{"variant": "default", "cases": 250000, "params": {"orders": 8}, "timeout": 3000}, {"variant": "checks", "cases": 30000, "params": {"orders": 4}, "timeout": 3000}],
     "floors": {"any": {"histories_compared": 1500, "orders_compared": 8000}},
 }
@@ -205,7 +205,7 @@ PROPS["C06"] = {
             "minimum over eg.enodes, cost_rec(result) == best cost, lookup_rec_expr(result) equals the query, free slots of the result are arguments of the query or never-seen slots, no panic, "
             "extraction succeeds iff the own fix-point finds a finite term. Non-trivial = distinct history whose e-graph has a cyclic class or a class with e-nodes of different cost.",
     "assumptions": ["the own least fix-point uses eg.enodes and the same cost function; 'new slot' = its printed name occurs nowhere in the e-graph or the user alphabet before extraction"],
-    "quick": [{"variant": "default", "cases": 1500, "timeout": 600}, {"variant": "checks", "cases": 500, "timeout": 600}],
+    "quick": [{"variant": "default", "cases": 4500, "timeout": 600}, {"variant": "checks", "cases": 1500, "timeout": 600}],
     "thorough": [{"variant": "default", "cases": 200000, "timeout": 3000}, {"variant": "checks", "cases": 30000, "timeout": 3000}, {"variant": "explanations", "cases": 10000, "timeout": 3000}],
     "floors": {"any": {"extractions": 30000, "egraphs_with_cyclic_class": 200, "enodes_with_redundant_slots": 500, "queries_with_cost_choice": 5000}},
 }
@@ -215,7 +215,7 @@ PROPS["C05"] = {
             "variables, the pattern instantiated bottom-up with eg.lookup only must be represented, each multi-pattern equation must hold between the bound classes, and a fingerprint (progress, "
             "nodes, ids, class slots, equality matrix of all handles) must be unchanged by matching. Non-trivial = distinct history with >=1 validated match of a pattern with >=2 nodes / >=2 equations.",
     "assumptions": ["instantiation uses only EGraph::lookup, so 'represented without inserting' is decided by the crate's own lookup, cross-checked by C09"],
-    "quick": [{"variant": "default", "cases": 2000, "timeout": 600}],
+    "quick": [{"variant": "default", "cases": 16000, "timeout": 600}],
     "thorough": [{"variant": "default", "cases": 300000, "timeout": 3000}, {"variant": "checks", "cases": 30000, "timeout": 3000}],
     "floors": {"any": {"matches_validated": 10000, "multimatches_validated": 2000, "patterns_with_matches": 3000, "multipatterns_with_matches": 1000}},
 }
@@ -226,7 +226,7 @@ PROPS["C04"] = {
             "equality). Scope guards on the real e-graph: no class with a redundant slot, instance represented beforehand, binders bound once. After one apply_rewrites the right-hand instance "
             "must be represented and equal to the planted one. Non-trivial = distinct planting with a repeated variable, a symmetric class or presence only through a union.",
     "assumptions": ["the planted substitution is known by construction; out-of-scope plantings are counted as skipped, not judged"],
-    "quick": [{"variant": "default", "cases": 4000, "timeout": 600}],
+    "quick": [{"variant": "default", "cases": 40000, "timeout": 600}],
     "thorough": [{"variant": "default", "cases": 600000, "timeout": 3000}, {"variant": "checks", "cases": 60000, "timeout": 3000}],
     "floors": {"any": {"plantings_judged": 3000, "plantings_with_repeated_variable": 200, "plantings_present_only_through_union": 800, "plantings_with_symmetric_class": 800}},
 }
@@ -239,7 +239,7 @@ PROPS["C03"] = {
             "start term's value must equal its class's. Non-trivial = distinct (term, rule set, model) run in which a rule mentioning a slot was in the set and the e-graph grew.",
     "assumptions": ["the rule pools contain only rules valid in their model (the unconditional sum-mul-out rule is kept outside as the sensitivity probe: vworker C03 bad=1 must report violations)",
                     "a fault invisible in both finite models for all sampled environments is not seen"],
-    "quick": [{"variant": "default", "cases": 500, "timeout": 900}, {"variant": "explanations", "cases": 120, "timeout": 900}],
+    "quick": [{"variant": "default", "cases": 3000, "timeout": 900}, {"variant": "explanations", "cases": 720, "timeout": 900}],
     "thorough": [{"variant": "default", "cases": 40000, "params": {"case_timeout": 120}, "timeout": 3400}, {"variant": "checks", "cases": 3000, "params": {"case_timeout": 120}, "timeout": 3400}, {"variant": "explanations", "cases": 3000, "params": {"case_timeout": 120}, "timeout": 3400}],
     "floors": {"any": {"runs": 300, "enode_evaluations": 200000, "root_evaluations": 10000, "runs_with_subst_rule": 30, "runs_with_conditional_rule": 100, "runs_extraction_subst": 100}},
 }
@@ -250,7 +250,7 @@ PROPS["C14"] = {
             "move up; min-size == own Bellman-Ford minimum == Extractor<AstSize> best cost; constant datum == model value under random environments; a class with a ground e-node has a constant; "
             "no merge conflict was recorded; work lists drained. Non-trivial = distinct history in which modify ran and a union or rewrite happened.",
     "assumptions": ["the analyses are semilattice joins (min / agreeing constants); make/merge/modify calls are counted by the analysis itself"],
-    "quick": [{"variant": "default", "cases": 800, "timeout": 900}],
+    "quick": [{"variant": "default", "cases": 6400, "timeout": 900}],
     "thorough": [{"variant": "default", "cases": 120000, "params": {"case_timeout": 120}, "timeout": 3400}, {"variant": "checks", "cases": 8000, "params": {"case_timeout": 120}, "timeout": 3400}],
     "floors": {"any": {"class_checks": 20000, "const_vs_model": 20000, "modify_calls": 3000, "runs_where_union_lowered_a_datum": 100}},
 }
@@ -262,7 +262,7 @@ PROPS["C15"] = {
             ">= limit+1 applications; always <= limit+2 applications; NodeLimit => nodes > limit; Other(e) <=> the hook returned e; TimeLimit only with limit 0; report.egraph_nodes == node count. "
             "Non-trivial = distinct (setup, limits) run.",
     "assumptions": ["wall-clock time is never a verdict: the time limit is out of reach except in the limit-0 lane, where TimeLimit is always true"],
-    "quick": [{"variant": "default", "cases": 2500, "timeout": 900}],
+    "quick": [{"variant": "default", "cases": 20000, "timeout": 900}],
     "thorough": [{"variant": "default", "cases": 250000, "params": {"case_timeout": 120}, "timeout": 3400}, {"variant": "checks", "cases": 20000, "params": {"case_timeout": 120}, "timeout": 3400}],
     "floors": {"any": {"runs": 1500, "stop_saturated": 500, "stop_iteration_limit": 40, "stop_node_limit": 15, "stop_other": 60, "apply_rewrites_returned_false": 300, "saturated_matches_checked": 500}},
 }
@@ -274,7 +274,7 @@ PROPS["C20"] = {
             "slot set, find results, ids(), node counts, progress, match lists in returned order, extracted terms and costs, final class listings. The monitor logs (thread, operation) at every "
             "boundary; distinct_nontrivial counts distinct histories plus distinct observed schedule prefixes (first 12 boundary crossings of the replay threads).",
     "assumptions": ["a library without locks can only be interleaved at operation boundaries; address/seed dependence needing a particular heap layout is only sampled by the 3 processes"],
-    "quick": [{"variant": "default", "cases": 160, "params": {"processes": 3}, "timeout": 900}, {"variant": "default", "cases": 600, "params": {"processes": 0}, "timeout": 900}],
+    "quick": [{"variant": "default", "cases": 480, "params": {"processes": 3}, "timeout": 900}, {"variant": "default", "cases": 1800, "params": {"processes": 0}, "timeout": 900}],
     "thorough": [{"variant": "default", "cases": 12000, "params": {"processes": 3}, "timeout": 3400}, {"variant": "default", "cases": 60000, "params": {"processes": 0}, "timeout": 3400},
                  {"variant": "explanations", "cases": 4000, "params": {"processes": 0}, "timeout": 3400}],
     "floors": {"any": {"thread_replays": 2000, "process_replays": 300, "dump_lines_compared": 1000, "thread_switches_observed": 5000, "noise_iterations_during_replays": 5000}},
@@ -289,7 +289,7 @@ PROPS["C07"] = {
             "must be the query up to an injective renaming; building, explaining, to_string and check() must not panic. Non-trivial = distinct history with a proof containing a congruence step "
             "or >= 2 explicit leaves.",
     "assumptions": ["the term-level rule formulations of DESIGN §3.6; get_syn_expr is used only as a renderer of the two sides of each step"],
-    "quick": [{"variant": "explanations", "cases": 1200, "timeout": 900}],
+    "quick": [{"variant": "explanations", "cases": 7200, "timeout": 900}],
     "thorough": [{"variant": "explanations", "cases": 120000, "params": {"case_timeout": 120}, "timeout": 3400}],
     "floors": {"any": {"proofs": 3000, "proof_nodes": 15000, "steps_congruence": 300, "steps_transitivity": 3000, "leaves_explicit": 3000, "leaves_by_rule": 60}},
 }
